@@ -519,7 +519,9 @@ func ruleBLSVerify(c *Ctx) {
 						return true
 					}
 					// on the valid side only what certainly refuses counts: `return store(x)` may well succeed
-					if v := verdictOf(info, o.ret); v != "" {
+					if v := verdictOf(info, o.ret); v == "?" {
+						return false // a verdict carried in a variable: not known to refuse
+					} else if v != "" {
 						return true
 					}
 					last := ast.Unparen(o.ret.Results[len(o.ret.Results)-1])
